@@ -117,8 +117,9 @@ def memory_write(ctx, rule):
         ctx.unknown(rule, 'memory-write', f, 'grow / write calls of memory::write not found (%d, %d)' % (len(grow), len(wr)))
         return
     PAGE = P.item('WASM_PAGE_SIZE')
-    LAST = P.has(P.call('core::num::checked_add', P.param('offset'), P.maybe_cast(P.call('*::len', P.param('bytes')))))
-    SIZE = P.has(P.call('core::num::checked_mul', P.call('*::size', P.param('memory')), PAGE))
+    # exactly offset + len (exclusive end) and size * page, each only wrapped in the overflow check
+    LAST = P.call('*::expect', P.call('core::num::checked_add', P.param('offset'), P.maybe_cast(P.call('*::len', P.param('bytes')))), P.anything)
+    SIZE = P.call('*::expect', P.call('core::num::checked_mul', P.call('*::size', P.param('memory')), PAGE), P.anything)
     pages = e.operand(grow[0].args[1])
     okp = P.binop('Div', P.has(P.call('core::num::checked_add', P.binop('Sub', LAST, SIZE), P.binop('Sub', PAGE, P.const(1)))), PAGE)(pages)
     conds = cond_exprs(prog, f, grow[0].bb)
